@@ -3,13 +3,6 @@
 // Contracts for the gocv verifier (comment-only file; see /verif/DESIGN.md §4).
 package transport
 
-//@ func (t *ReuseConnTransport) ExchangeContext
-//@   nobody
-//@   log reuseExchange
-//@   modifies *
-//@   ensures (result_1 == nil) == (result_0 != nil)
-//@   ensures result_1 == nil ==> len(*result_0) >= 12
-
 // ---------------------------------------------------------------------------------------------
 // Channels of this package.
 // Reply channels carry pooled buffers holding at least a DNS header; nobody closes them.
@@ -98,7 +91,7 @@ package transport
 //@   ensures atunlock(ote.reservedQuery) == atlock(ote.reservedQuery) - 1 && atunlock(ote.reservedQuery) >= 0
 
 //@ func (ote *tdcOneTimeExchanger) ExchangeReserved [C09, C01]
-//@   requires ote != nil && ctx != nil && ote.res >= 1 && len(q) >= 12 && ctx.Done() != ote.closeNotify
+//@   requires ote != nil && ctx != nil && ote.res >= 1 && len(q) >= 12
 //@   modifies *
 //@   ensures ote.res == old(ote.res) - 1
 //@   ensures calls(tdcExchange) == 1 && calls(withdrawReserved) == 1 && callpos(withdrawReserved, 0) > callpos(tdcExchange, 0)
@@ -145,10 +138,11 @@ package transport
 //       caller's id is restored in it, and the registration is removed on every exit; every
 //       transmission carries the assigned wire id.
 //  C02: the waiter is registered before the first transmission, and a path that gives up because
-//       the connection closed has looked into its reply channel AFTER it saw the close.
+//       the connection closed (while the caller's context is still live) has looked into its
+//       reply channel AFTER it saw the close.
 //@ func (dc *TraditionalDnsConn) exchange [C01, C02, C07]
 //@   log tdcExchange
-//@   requires dc != nil && ctx != nil && len(q) >= 12 && ctx.Done() != dc.closeNotify
+//@   requires dc != nil && ctx != nil && len(q) >= 12
 //@   modifies *
 //@   preserves comp(TraditionalDnsConn.res)
 //@   ensures[C07] (result_0 != nil) != (result_1 != nil)
@@ -157,7 +151,7 @@ package transport
 //@   ensures[C01] calls(addQueueC) <= 1 && (calls(addQueueC) == 1 && ret(addQueueC, 0, 1) != nil ==> calls(deleteQueueC) == 1 && arg(deleteQueueC, 0, 1) == ret(addQueueC, 0, 0))
 //@   ensures[C01] calls(writeQuery) >= 1 ==> arg(writeQuery, 0, 1) == q && arg(writeQuery, 0, 2) == ret(addQueueC, 0, 0)
 //@   ensures[C02] calls(writeQuery) >= 1 ==> calls(addQueueC) == 1 && ret(addQueueC, 0, 1) != nil && callpos(addQueueC, 0) < callpos(writeQuery, 0)
-//@   ensures[C02] result_0 == nil && calls(addQueueC) == 1 && ret(addQueueC, 0, 1) != nil && lastpos(chanRecv) > callpos(addQueueC, 0) && lastarg(chanRecv, 0) == dc.closeNotify ==> lastpos(pollEmpty) > lastpos(chanRecv) && lastarg(pollEmpty, 0) == ret(addQueueC, 0, 1)
+//@   ensures[C02] result_0 == nil && !closed(ctx.Done()) && calls(addQueueC) == 1 && ret(addQueueC, 0, 1) != nil && lastpos(chanRecv) > callpos(addQueueC, 0) && lastarg(chanRecv, 0) == dc.closeNotify ==> lastpos(pollEmpty) > lastpos(chanRecv) && lastarg(pollEmpty, 0) == ret(addQueueC, 0, 1)
 //@   loop 0:
 //@     invariant dc != nil && len(q) >= 12 && respChan != nil
 //@     each[C01] iter_calls(writeQuery) <= 1 && (iter_calls(writeQuery) == 1 ==> iter_arg(writeQuery, 0, 1) == q && iter_arg(writeQuery, 0, 2) == assignedQid)
@@ -206,6 +200,8 @@ package transport
 //@   lock m protects closed, idleConns, conns
 //@   invariant m: self.idleConns != nil && self.conns != nil
 //@   invariant m: forall k *reusableConn :: (k in self.idleConns) ==> k != nil
+//@   invariant m: forall k *reusableConn :: (k in self.conns) ==> k != nil
+//@   invariant self.ctx != nil && self.logger != nil
 
 // reusableConn.exchange (C01, C02, C07): the 1-buffered reply slot is installed before the query is
 // written; the reply is taken from that slot's channel only; exactly one of reply / error is
@@ -214,13 +210,14 @@ package transport
 // (excluded by the idle-set discipline of getIdleConn / setIdle, not re-proved here).
 //@ func (c *reusableConn) exchange [C01, C02, C07]
 //@   log reuseConnExchange
-//@   requires c != nil && ctx != nil && q != nil && ctx.Done() != c.closeNotify
+//@   requires c != nil && ctx != nil && q != nil
 //@   modifies *
 //@   panics when atlock(c.waitingResp != nil)
 //@   ensures[C07] (result_0 != nil) != (result_1 != nil)
-//@   ensures[C01] result_0 != nil ==> lastarg(chanRecv, 0) == respChan && result_0 == lastret(chanRecv, 0) && len(*result_0) >= 12
+//@   ensures[C01] result_0 != nil ==> lastarg(chanRecv, 0) == respChan && result_0 == lastret(chanRecv, 0)
+//@   ensures result_0 != nil ==> len(*result_0) >= 12
 //@   ensures[C02] calls(Write) <= 1 && (calls(Write) == 1 ==> callpos(unlock, 0) < callpos(Write, 0) && atunlock(c.waitingResp) == respChan && cap(respChan) >= 1 && fresh(respChan))
-//@   ensures[C02] result_0 == nil && calls(Write) == 1 && ret(Write, 0, 1) == nil && lastpos(chanRecv) >= 0 && lastarg(chanRecv, 0) == c.closeNotify ==> lastpos(pollEmpty) > lastpos(chanRecv) && lastarg(pollEmpty, 0) == respChan
+//@   ensures[C02] result_0 == nil && !closed(ctx.Done()) && calls(Write) == 1 && ret(Write, 0, 1) == nil && lastpos(chanRecv) >= 0 && lastarg(chanRecv, 0) == c.closeNotify ==> lastpos(pollEmpty) > lastpos(chanRecv) && lastarg(pollEmpty, 0) == respChan
 
 // reusableConn.readLoop (C01, C02): a reply is handed to whoever occupies the slot at that moment
 // and the slot is emptied in the same critical section; a reply with nobody waiting closes the
@@ -252,6 +249,7 @@ package transport
 //@   ensures closed(c.closeNotify)
 //@   ensures !atunlock(c in c.t.conns) && !atunlock(c in c.t.idleConns)
 //@ func (c *reusableConn) closeWithErrByTransport [C07]
+//@   log closeByTransport
 //@   requires c != nil
 //@   modifies *
 //@   ensures calls(onceDo) == 1
@@ -443,3 +441,62 @@ package transport
 //@     invariant t != nil && t.conns == atlock(t.conns) && t.closed
 //@     invariant forall k *lazyDnsConn :: (k in t.conns) ==> k != nil
 //@     each iter_calls(lazyClose) == 1 && iter_arg(lazyClose, 0, 0) == conn
+
+// ---------------------------------------------------------------------------------------------
+// ReuseConnTransport: dialling and the retry loop.
+// A dial result is a connection or an error, never both nil.
+//@ chanmsg dialRes (v) noclose: (v.c != nil) != (v.err != nil)
+//@ func fieldfn:ReuseConnTransport.dialFunc
+//@   log reuseDial
+//@   modifies *
+//@   ensures (result_0 != nil) != (result_1 != nil)
+
+// getNewConn (C07, C08): returns a connection or an error; ends when the caller's or the
+// transport's context ends.
+//@ func (t *ReuseConnTransport) getNewConn [C08, C07]
+//@   log getNewConn
+//@   requires t != nil && ctx != nil
+//@   modifies *
+//@   ensures (result_0 != nil) != (result_1 != nil)
+//@ func (t *ReuseConnTransport) getNewConn$1 [C08, C07]
+//@   requires t != nil && callCtx != nil && dialChan != nil
+//@   modifies *
+//@   ensures calls(reuseDial) == 1
+//@   ensures calls(chanSend) + calls(setIdle) <= 1
+//@ func (t *ReuseConnTransport) newReusableConn [C09]
+//@   log newReusableConn
+//@   requires t != nil && c != nil
+//@   modifies *
+//@   ensures atlock(t.closed) == (result == nil)
+//@   ensures result != nil ==> fresh(result) && result.c == c && result.t == t && atunlock(result in t.conns)
+
+// ExchangeContext (C08): an attempt is repeated only if it ran on a connection taken from the idle
+// pool; at most 4 attempts; a failure is reported only after an attempt on a freshly dialled
+// connection failed, the attempts are used up, or no connection could be had.
+//@ func (t *ReuseConnTransport) ExchangeContext [C08]
+//@   log reuseExchange
+//@   requires t != nil && ctx != nil && len(m) >= 12
+//@   modifies *
+//@   ensures (result_1 == nil) == (result_0 != nil)
+//@   ensures result_1 == nil ==> len(*result_0) >= 12
+//@   ensures 0 <= retry && retry <= 3
+//@   ensures result_1 != nil && calls(reuseConnExchange) == 1 ==> ret(reuseConnExchange, 0, 1) != nil && (calls(getNewConn) == 1 || retry == 3)
+//@   ensures result_1 == nil ==> calls(reuseConnExchange) == 1 && result_0 == ret(reuseConnExchange, 0, 0)
+//@   loop 0:
+//@     invariant t != nil && ctx != nil && len(m) >= 12 && 0 <= retry && retry <= 3
+//@     each iter_calls(getIdleConn) == 1 && iter_ret(getIdleConn, 0, 0) != nil && iter_calls(getNewConn) == 0 && iter_calls(reuseConnExchange) == 1 && iter_arg(reuseConnExchange, 0, 0) == iter_ret(getIdleConn, 0, 0) && iter_ret(reuseConnExchange, 0, 1) != nil
+//@     decreases 3 - retry
+
+// Close (C07): idempotent; every connection is closed and forgotten, the dial context is
+// cancelled, later calls are refused (getIdleConn / newReusableConn check the flag).
+//@ func (t *ReuseConnTransport) Close [C07]
+//@   requires t != nil
+//@   modifies *
+//@   ensures result == nil && atunlock(t.closed)
+//@   ensures !atlock(t.closed) ==> calls(ctxCancel) == 1
+//@   loop 0:
+//@     invariant t != nil && t.conns == atlock(t.conns) && t.idleConns == atlock(t.idleConns) && t.closed && t.conns != nil && t.idleConns != nil
+//@     invariant forall k *reusableConn :: ((k in t.conns) ==> k != nil) && ((k in t.idleConns) ==> k != nil)
+//@     each iter_calls(closeByTransport) == 1 && iter_arg(closeByTransport, 0, 0) == c && !(c in t.conns) && !(c in t.idleConns)
+//@ func fieldfn:ReuseConnTransport.ctxCancel
+//@   log ctxCancel
